@@ -257,6 +257,12 @@ func RunCmd(dir string, name string, args ...string) (string, string, int) {
 // Scope prefixes the names of the fault flags created by stubs from now on.
 func Scope(name string) {}
 
+// ScopeShared is Scope for a scope that stands for one input (one document, one profile text):
+// stubs consulted again under the same scope repeat the outcome they chose before, so "the same
+// document meets the same stage outcomes" holds by construction rather than by an assumption
+// over flags that a shortcut in the code under test may never create.
+func ScopeShared(name string) {}
+
 // GlobalResets lists atomic stores / compare-and-swaps on package-level state recorded so far
 // (race-free, yet visible to every other call in flight).
 func GlobalResets() []string { return nil }
